@@ -773,3 +773,54 @@ def derived_views(ctx, count):
         phys = export.export_ext(d.array)
         a = ctx.driver.call("abs", col=phys)["model"]
         check_object_views(ctx, d, a["col"]["rows"], [list(x) for x in a["col"]["ty"]], f"derived:{how}", [s.desc(), how])
+
+
+def case_accessor_after_inplace(ctx, s: Subject):
+    """C06 on a Series whose backing array was swapped by an in-place pandas call AFTER `.nest` had been used on it
+    (pandas caches the accessor object on the Series): a field edit / selection through `.nest` describes the Series
+    as it is NOW — the same as on a Series freshly made of its current rows and labels."""
+    rng = ctx.rng
+    n = len(s.content["rows"])
+    if n < 2:
+        return
+    labels = gen.rand_labels(rng, n, pattern="unique_unsorted")
+    ser = pd.Series(s.fresh_ext(), index=pd.Index(labels), name="nest")
+    _ = list(ser.nest.fields), ser.nest.flat_length          # ordinary earlier use of the accessor
+    step = rng.choice(["sort_index", "sort_index_desc", "drop", "dropna"])
+    try:
+        if step == "sort_index":
+            ser.sort_index(inplace=True)
+        elif step == "sort_index_desc":
+            ser.sort_index(ascending=False, inplace=True)
+        elif step == "drop":
+            ser.drop([rng.choice(labels)], inplace=True)
+        else:
+            ser.dropna(inplace=True)
+    except Exception:  # noqa: BLE001 — e.g. labels of mixed kinds cannot be sorted: nothing to check
+        return
+    fresh = pd.Series(NestedExtensionArray(pa.chunked_array(ser.array.chunked_array.chunks, type=ser.array.chunked_array.type)),
+                      index=ser.index.copy(), name="nest")
+    total = int(fresh.nest.flat_length)
+    ty = s.ty
+    f0 = ty[0][0]
+    t = rng.choice(["int64", "double", "string"])
+    cells = [gen.rand_cell(rng, t) for _ in range(total)]
+    cell = gen.rand_cell(rng, "int64", p_null=0)
+
+    def sres(r):
+        return {"index": export.labels(r.index), "name": r.name, **colres(r.array)}
+    edits = {
+        "with_flat_field": lambda x: x.nest.with_flat_field("zz_new", gen.flat_array(cells, t)),
+        "with_flat_field_existing": lambda x: x.nest.with_flat_field(f0, gen.flat_array(cells, t)),
+        "with_filled_field": lambda x: x.nest.with_filled_field("zz_fill", np.arange(len(x), dtype=np.int64) + cell),
+        "select": lambda x: x.nest[[f0]],
+        "to_flat": lambda x: x.nest.to_flat(),
+    }
+    if len(ty) >= 2:
+        edits["without_field"] = lambda x: x.nest.without_field(f0)
+    for name, fn in edits.items():
+        view = (lambda r: export.flat_df_view(r)) if name == "to_flat" else sres
+        real = call_real(lambda: view(fn(ser)))
+        spec = call_real(lambda: view(fn(fresh)))
+        ctx.case(f"nest.after_inplace.{name}", {**s.desc(), "labels": labels, "inplace": step, "ty": t, "cells": cells, "cell": cell},
+                 real, None, spec, hyp=s.hyp, features=s.features + ("after_inplace", step, name), nontrivial=s.nontrivial())
